@@ -109,7 +109,9 @@ def gen_plan(prop, tier, rng, i):
     plan = {"engine": "evsim15", "flags": flags, "wstart": wstart, "wend": wend, "events": events,
             "recording": None, "tzform": rng.choice(["utc", "utc", "naive", "+0530", "-0800"]),
             # time zone of the process that builds the handler (naive bounds mean UTC whatever it is)
-            "proc_tz": rng.choice([None, None, "XYZ5", "ABC-05:30", "EST5EDT,M3.2.0,M11.1.0"])}
+            "proc_tz": rng.choice([None, None, "XYZ5", "ABC-05:30", "EST5EDT,M3.2.0,M11.1.0"]),
+            # where the watched tree lives (a `mktemp -d` directory is called tmp.XXXXXXXXXX)
+            "root_dir": rng.choice([None, None, None, "tmp.k3J9xQ2v1B/watched", "tmp.data"])}
     if i % 5 == 4:
         # thread tier: the thread that replays existing files (dispatch without window test, as
         # DigitalRFMirror.start() does on the caller's thread) runs concurrently with the observer thread that
@@ -250,7 +252,7 @@ def run_plan(prop, plan):
     res = K.RunResult()
     _counter[0] += 1
     sc = K.new_scratch("ev15-%d-%d" % (os.getpid(), _counter[0]))
-    root = os.path.join(sc, "watched")
+    root = os.path.join(sc, plan.get("root_dir") or "watched")
     os.makedirs(root)
     flags = dict(plan["flags"])
     old_tz = os.environ.get("TZ")
